@@ -434,11 +434,12 @@ def evaluate(prop, tier, tmpls, unit_cache, kani_cache):
         if r["cmd"]:
             cmds.append(r["cmd"])
     for kr in kres:
-        n_obl += kr["checks"]
-        n_dis += kr["checks"] - kr["failed_checks"]
+        if kr["counts_as_proof"]:      # bounded harnesses are labelled bounded and never counted as proved
+            n_obl += kr["checks"]
+            n_dis += kr["checks"] - kr["failed_checks"]
         trusted += kr["assumptions"]
         cmds.append(kr["cmd"])
-        samples.append({"backend": "kani+cbmc", "obligation": kr["harness"], "kind": kr["kind"], "bound": kr["bound"],
+        samples.append({"backend": "kani+cbmc", "obligation": kr["harness"], "kind": kr["kind"], "counted_as_proof": kr["counts_as_proof"], "bound": kr["bound"],
                         "checks": kr["checks"], "failed": kr["failed_checks"], "seconds": kr["seconds"]})
     clause_samples = []
     for r in results:
